@@ -31,3 +31,7 @@ def run(tier):
     chk.assumptions = ["payload values are tags from a small range; payload types are three representatives (trivially copyable)",
                        "which transition activated a state is C09's subject; here every exposed transition must be internally consistent with what was attached to it"]
     return chk
+
+
+def replay(path):
+    return en.replay(path)
